@@ -194,7 +194,9 @@ async fn purge_stream(
     Path(stream_id): Path<String>,
 ) -> Result<StatusCode, CustomError> {
     let identifier_stream_id = Identifier::from_str_value(&stream_id)?;
-    let system = state.system.read().await;
+    // The exclusive lock: with the shared one this command could be journalled before the (still unjournalled) creation
+    // of the entity it purges, which the replay of the state cannot apply.
+    let system = state.system.write().await;
     system
         .purge_stream(
             &Session::stateless(identity.user_id, identity.ip_address),
